@@ -114,9 +114,10 @@ def hwmon(ctx, nchip, nsens, coretemp):
             ctx.prove(ctx.all(ok), "hwmon-values", detail=f"{n} {label}")
 
 
-@harness("C19.thermal", quick=[dict(ntrip=n) for n in (0, 1, 2)], thorough=[dict(ntrip=n) for n in (0, 1, 2, 3)])
-def thermal(ctx, ntrip):
-    """fallback to /sys/class/thermal when hwmon exposes nothing"""
+@harness("C19.thermal", quick=[dict(ntrip=n) for n in (0, 1, 2)] + [dict(ntrip=2, first=f) for f in (9, 99)], thorough=[dict(ntrip=n) for n in (0, 1, 2, 3)] + [dict(ntrip=3, first=f) for f in (8, 9, 99)])
+def thermal(ctx, ntrip, first=0):
+    """fallback to /sys/class/thermal when hwmon exposes nothing; first: number of the first trip point (zones with a dozen trip
+    points exist: trip_point_10_temp ...)"""
     k = simk.Kernel(ctx)
     base = "/sys/class/thermal/thermal_zone0"
     cur = ctx.int("cur", 0, 150000)
@@ -125,7 +126,7 @@ def thermal(ctx, ntrip):
     k.dirs[base] = []
     k.files["/sys/class/thermal/thermal_zone1/type"] = "broken\n"        # zone without a readable temp file: skipped
     trips = []
-    for i in range(ntrip):
+    for i in range(first, first + ntrip):
         ty = ctx.choice(f"type{i}", ["critical", "high", "passive"])
         v = ctx.int(f"trip{i}", 0, 150000)
         k.files[f"{base}/trip_point_{i}_type"] = ty + "\n"
@@ -281,6 +282,27 @@ def no_battery(ctx):
         t = psutil.sensors_temperatures()
         f = psutil.sensors_fans()
     ctx.prove(r is None and t == {} and f == {}, "nothing-exposed-gives-None-or-empty")
+
+
+@harness("C19.cpu_topology", quick=[dict(ncores=n) for n in (1, 2, 3)], thorough=[dict(ncores=n) for n in (1, 2, 3, 4, 5)])
+def cpu_topology(ctx, ncores):
+    """cpu_count(logical=False) from the kernel's topology files: the number of distinct cores, whatever the number of hardware
+    threads each core has online (hybrid CPUs mix 1- and 2-thread cores; a thread can be offline) and however the kernel spells the
+    sibling list ("0,4" or "0-1"); either the current or the deprecated file name"""
+    k = simk.Kernel(ctx)
+    fname = ctx.choice("file", ["core_cpus_list", "thread_siblings_list"])
+    cpu = 0
+    for c in range(ncores):
+        nthreads = ctx.choice(f"threads_of_core{c}", [1, 2])
+        ids = list(range(cpu, cpu + nthreads))
+        cpu += nthreads
+        text = (f"{ids[0]}-{ids[-1]}" if ctx.flag(f"range_spelling{c}") else ",".join(map(str, ids))) if nthreads > 1 else str(ids[0])
+        for i in ids:
+            k.files[f"/sys/devices/system/cpu/cpu{i}/topology/{fname}"] = text + "\n"
+    k.files["/proc/cpuinfo"] = "processor\t: 0\nphysical id\t: 0\ncpu cores\t: 77\n\n"       # the fallback source: not consulted when the topology is there
+    with k.installed():
+        got = ctx.guard("cpu_count", psutil.cpu_count, logical=False)
+    ctx.prove(got == ncores, "cpu_count", detail=f"{ncores} cores with {cpu} hardware threads online: cpu_count(logical=False) -> {got}")
 
 
 @harness("C19.cpu", quick=[dict(ncpu=n) for n in (1, 3)], thorough=[dict(ncpu=n) for n in (1, 2, 3, 4)])
